@@ -108,6 +108,16 @@ BAD_FIELD_LINES = [
     ("name-only-colon", b"X-Empty:"),
     ("lead-ws-line", b" X-LeadingWs: 1"),
 ]
+# every RFC 9110 delimiter and a few other non-tchar octets, anywhere in a field name (", Content-Length" smuggling shape too)
+_NON_TCHAR = [bytes([c]) for c in b'"(),/;<=>?@[\\]{}\x7f\x0b\x1b\x80\xff']
+
+
+def _bad_field(rnd):
+    if rnd.int(0, 3) == 0:
+        ch = rnd.pick(_NON_TCHAR)
+        shape = rnd.pick([b"X%sY: 1", b"%sX: 1", b"X-Len%sContent-Length: 5", b"Transfer-Encoding%s: chunked", b"X%s: 1"])
+        return "bad-name-nontoken", shape % ch
+    return rnd.pick(BAD_FIELD_LINES)
 
 
 _BODIES = [b"", b"a", b"hello", b"0\r\n\r\n", b"GET /smuggled HTTP/1.1\r\nHost: a.example\r\n\r\n", b"\r\n", b"x" * 33]
@@ -232,7 +242,7 @@ def request(rnd, mode="regular", allow_bad=True, level=None):
     cls = list(fr["cls"])
     extra = []
     if allow_bad and rnd.adv(0.3):
-        c, l = rnd.pick(BAD_FIELD_LINES)
+        c, l = _bad_field(rnd)
         extra.append(l)
         cls.append(c)
     conn = rnd.pick([None] * 6 + [b"Connection: close", b"Connection: keep-alive", b"Expect: 100-continue"])
@@ -281,7 +291,7 @@ def response(rnd, allow_bad=True, level=None):
     cls = list(fr["cls"])
     extra = []
     if allow_bad and rnd.adv(0.3):
-        c, l = rnd.pick(BAD_FIELD_LINES)
+        c, l = _bad_field(rnd)
         extra.append(l)
         cls.append(c)
     conn = rnd.pick([None] * 6 + [b"Connection: close", b"Connection: keep-alive"])
